@@ -2870,15 +2870,16 @@ impl Node {
     pub fn forget_channel(&self, channel_id: &ChannelId) -> Result<(), Status> {
         let mut stub_found = false;
         let mut ready_forgotten = false;
-        // As per devrandom the lock order should be node_state -> channels -> channel
-        let mut node_state: MutexGuard<'_, NodeState> = self.get_state();
+        // Every other request locks channels -> channel -> node_state (the channel methods
+        // take the node state while the channel is locked), so do the same here.
         let mut channels = self.get_channels();
         let found = channels.get(channel_id);
         if let Some(slot) = found {
+            let channel = slot.lock().unwrap();
             // Acquire a lock on the node state to potentially update the high water mark.
             // This is the only place the high water mark could be updated so any changes
             // to the node state since acquiring the channels lock are irrelevant.
-            let channel = slot.lock().unwrap();
+            let mut node_state: MutexGuard<'_, NodeState> = self.get_state();
             match &*channel {
                 ChannelSlot::Stub(_) => {
                     info!("forget_channel stub {}", channel_id);
@@ -2908,7 +2909,6 @@ impl Node {
             });
         }
         drop(channels);
-        drop(node_state);
         if ready_forgotten {
             // the forget flag lives in the channel's monitor, which is persisted with the tracker
             let tracker = self.get_tracker();
